@@ -204,6 +204,11 @@ World::World(eng::engine_schema sch, const std::string& dir, int mode) : schema(
     handle = seam::opened_handles().back();
     uuid = read_uuid(*this);
 }
+World::World(eng::engine_schema sch, dj::database adopted, sqlite3* h) : schema(sch), v2(is_v2(sch)), db(adopted)
+{
+    handle = h;
+    uuid = read_uuid(*this);
+}
 World::~World() {}
 
 static std::string demangle(const char* n)
